@@ -3,6 +3,7 @@
   Property theorems about `Sq.step` / `Sq.run` (model of ast_ops.py's `Op.eval` protocol).
 -/
 import Sq.Machine
+import SqLemmas.MachineLemmas
 namespace SqProps.C01
 open Sq
 
@@ -97,5 +98,99 @@ theorem budget_mono (n : Nat) (c c' : Cfg) (hs : SameCore c c') (hle : BudgetsLe
     apply ih (step c) (step c') h0 hb
     · intro i hi; exact hvalid (i + 1) (by omega)
     · intro i hi; exact hno (i + 1) (by omega)
+
+/-! ### the counter equals the number of operations started -/
+
+theorem opsOf_setVM_ops (w : World) (i : Nat) (vm : VM) (n : Nat) (h : w.vm? i = some vm) :
+    opsOf (w.setVM i { vm with ops := n }) = (opsOf w).set i n := by
+  unfold opsOf World.setVM
+  simp [List.map_set]
+
+/-- **every operation is charged exactly once, and nothing else is charged**: a step that starts
+    an operation (`ev`) on VM `i` advances exactly that VM's counter by one — whether or not the limit
+    is reached, and whatever the node kind — … -/
+theorem ev_charges_one (c : Cfg) (op : Op) (i : Nat) (vm : VM) (N : Nat)
+    (hctl : c.ctl = .ev op i) (hvm : c.w.vm? i = some vm) (hb : c.budgets[i]? = some N) :
+    opsOf (step c).w = (opsOf c.w).set i (vm.ops + 1) := by
+  rcases Nat.lt_or_ge (vm.ops + 1) N with hlt | hge
+  · rw [charge_then_enter c op i vm N hctl hvm hb hlt]
+    show opsOf (enter op i c.k _).w = _
+    rw [enter_ops]
+    exact opsOf_setVM_ops c.w i vm _ hvm
+  · rw [charge_first c op i vm N hctl hvm hb hge]
+    exact opsOf_setVM_ops c.w i vm _ hvm
+
+/-- … and a step that returns a value to a frame, unwinds an error, or sits in a final state
+    charges nothing (so lambda bodies driven by map / filter / reduce / sorted / host callbacks are
+    charged through their own `ev` steps and only through them) -/
+theorem other_steps_charge_nothing (c : Cfg) (h : ∀ op i, c.ctl ≠ .ev op i) :
+    opsOf (step c).w = opsOf c.w := by
+  unfold step stepCore Cfg.core Core.withBudgets
+  cases hc : c.ctl with
+  | ev op i => exact absurd hc (h op i)
+  | ret v =>
+    simp only []
+    cases hk : c.k with
+    | nil => rfl
+    | cons fr k => exact resume_ops fr v k c.w
+  | raise e =>
+    simp only []
+    cases hk : c.k with
+    | nil => rfl
+    | cons fr k => exact unwind_ops fr e k c.w
+  | done v => rfl
+  | failed e => rfl
+
+/-! ### an aborted run only unwinds -/
+
+def noTry : List Frame → Prop
+  | [] => True
+  | .tryK :: _ => False
+  | _ :: k => noTry k
+
+/-- with no catching host frame on the continuation, a raised error reaches the top: after at most
+    `k.length + 1` steps the run has failed with that very error, and unwinding appends no event -/
+theorem raise_unwinds_to_failed (e : PyErr) : ∀ (k : List Frame) (w : World) (bs : List Nat), noTry k →
+    ∃ w', run (k.length + 1) { ctl := .raise e, k := k, w := w, budgets := bs } =
+            { ctl := .failed e, k := [], w := w', budgets := bs } ∧ w'.log = w.log ∧ w'.heap = w.heap := by
+  intro k
+  induction k with
+  | nil =>
+    intro w bs _
+    exact ⟨w, by simp [run, step, stepCore, Cfg.core, Core.withBudgets], rfl, rfl⟩
+  | cons fr k ih =>
+    intro w bs hnt
+    have hstep : ∃ w1, step { ctl := .raise e, k := fr :: k, w := w, budgets := bs } =
+        { ctl := .raise e, k := k, w := w1, budgets := bs } ∧ w1.log = w.log ∧ w1.heap = w.heap ∧ noTry k := by
+      cases fr with
+      | tryK => exact absurd hnt (by simp [noTry])
+      | popScopeK vm =>
+        simp only [step, stepCore, Cfg.core, Core.withBudgets, unwind]
+        cases hv : w.vm? vm with
+        | none => exact ⟨w, by simp [mkRaise], rfl, rfl, by simpa [noTry] using hnt⟩
+        | some vmv =>
+          exact ⟨w.setVM vm { vmv with scopes := vmv.scopes.tail }, by simp [mkRaise], rfl, rfl, by simpa [noTry] using hnt⟩
+      | _ => exact ⟨w, by simp [step, stepCore, Cfg.core, Core.withBudgets, unwind, mkRaise], rfl, rfl, by simpa [noTry] using hnt⟩
+    obtain ⟨w1, hs, hl, hh, hnt'⟩ := hstep
+    obtain ⟨w', hr, hl', hh'⟩ := ih w1 bs hnt'
+    refine ⟨w', ?_, by rw [hl', hl], by rw [hh', hh]⟩
+    show run (k.length + 1) (step _) = _
+    rw [hs]
+    exact hr
+
+/-- **the N-th operation aborts the run** (hosts that propagate errors): when the operation that
+    reaches the budget is started and no `try_apply` frame is pending, the run ends with the
+    ops-limit error, the heap and the log being exactly what they were before that operation -/
+theorem limit_is_fatal_without_try (c : Cfg) (op : Op) (vmi : Nat) (vm : VM) (N : Nat)
+    (hctl : c.ctl = .ev op vmi) (hvm : c.w.vm? vmi = some vm) (hb : c.budgets[vmi]? = some N)
+    (hlim : vm.ops + 1 ≥ N) (hnt : noTry c.k) :
+    ∃ w', run (c.k.length + 2) c = { ctl := .failed (.opsLimit N), k := [], w := w', budgets := c.budgets } ∧
+          w'.log = c.w.log ∧ w'.heap = c.w.heap := by
+  have h1 := charge_first c op vmi vm N hctl hvm hb hlim
+  obtain ⟨w', hr, hl, hh⟩ := raise_unwinds_to_failed (.opsLimit N) c.k (c.w.setVM vmi { vm with ops := vm.ops + 1 }) c.budgets hnt
+  refine ⟨w', ?_, hl, hh⟩
+  show run (c.k.length + 1) (step c) = _
+  rw [h1]
+  exact hr
 
 end SqProps.C01
